@@ -8,6 +8,7 @@ import KyupyVerif.Proofs.SubstSem9
 import KyupyVerif.Proofs.SubstResolve
 import KyupyVerif.Proofs.SubstSem10
 import KyupyVerif.Proofs.SubstGen17
+import KyupyVerif.Proofs.SubstGen23
 /-! # C10 — copy, pickle, fork elimination and cell substitution preserve function
 
 Objects of the theorems: the hand-written models `KV.Transform` of `Circuit.copy`, `__getstate__/__setstate__`,
@@ -1027,5 +1028,82 @@ example : exFeedHost.wfNoTrail = true ∧ exFeed.wf = true ∧ exFeedHost.net.io
 /-- a host that is well-formed only up to trailing `None`s (the result of `exHostFF` with `exImplFZ`: the `DFF` has `outs = [line, None]`)
     satisfies the host hypothesis of `substitute_sem_general` — `substitute_sem` needs `wf` -/
 example : ((substitute exHostFF 2 exImplFZ).map fun r => (r.wf, r.wfNoTrail)) = some (false, true) := by decide +kernel
+
+/-! ## `resolve_tlib_cells` through substitutions that remove lines, instances and dangling logic -/
+
+/-- **`resolve_tlib_cells` preserves the function — general case** (model `resolveCells`; every substitution along the loop satisfies the
+    hypotheses of `substitute_sem_general`: `resolveGenOKB`, decidable, evaluated by running the model — implementations with
+    or without designated cell, ignored input pins, unconnected outputs with dangling logic; the circuit between two
+    substitutions is well-formed only up to trailing `None`s).  With `cell x` = "`x` is a node of the original circuit `h` whose
+    kind is in the library" and index maps `ρ` from the result `h'` to `h` (`ρ.node j < h.nodes.size`: node `j` of `h'` IS the
+    original node `ρ.node j`; `ρ.line l < h.lines.size`: line `l` of `h'` IS the original line `ρ.line l`; injective there):
+    the result is well-formed up to trailing `None`s and keeps the ports in order; every original node that is no library cell
+    survives with kind, name and (pin by pin, renamed) its input lines;
+    **(1)** every consistent labelling `(an', v')` of the result is the restriction (along `ρ`) of a labelling `(an, v)` of the WHOLE
+    original circuit — the removed lines included — that is consistent outside the library cells and gives every library
+    cell `c` the relational meaning of its implementation (`ImplMatches`, with the ORIGINAL pins of `c`, also those whose
+    lines a substitution removed); **(2)** conversely every such labelling of the original circuit restricts/extends to a
+    consistent labelling of the result. -/
+theorem resolve_sem_general {α : Type _} (lib : Lib) (h h' : NNet) (hw : h.wfNoTrail = true) (hok : resolveGenOKB lib h.keys h = true)
+    (he : resolveCells lib h = some h') (z : α) (neg : α → α) (prim : String → α → α → α → α → α) :
+    h'.wfNoTrail = true ∧ ∃ ρ : Ren,
+      h'.net.io.map ρ.node = h.net.io ∧
+      (∀ j1 j2, j1 < h'.net.nodes.size → j2 < h'.net.nodes.size → ρ.node j1 < h.net.nodes.size → ρ.node j1 = ρ.node j2 → j1 = j2) ∧
+      (∀ l1 l2, l1 < h'.net.lines.size → l2 < h'.net.lines.size → ρ.line l1 < h.net.lines.size → ρ.line l1 = ρ.line l2 → l1 = l2) ∧
+      (∀ d, d < h.net.nodes.size → (lib.find (h.net.node d).kind).isSome = false →
+        ∃ j, j < h'.net.nodes.size ∧ ρ.node j = d ∧ (h'.net.node j).kind = (h.net.node d).kind ∧
+          h'.names.getD j "" = h.names.getD d "" ∧ ∀ k, ((h'.net.node j).inPin k).map ρ.line = (h.net.node d).inPin k) ∧
+      (∀ an' v' : Nat → α, ConsOff h' (fun _ => False) z neg prim an' v' →
+        ∃ an v, ConsOff h (fun x => x < h.net.nodes.size ∧ (lib.find (h.net.node x).kind).isSome = true) z neg prim an v ∧
+          (∀ c, c < h.net.nodes.size → (lib.find (h.net.node c).kind).isSome = true →
+            ∃ impl sh anm vm, lib.find (h.net.node c).kind = some impl ∧ implShape impl = some sh ∧
+              ImplMatches h c impl sh z neg prim anm vm v) ∧
+          (∀ l', l' < h'.net.lines.size → ρ.line l' < h.net.lines.size → v (ρ.line l') = v' l') ∧
+          (∀ j, j < h'.net.nodes.size → ρ.node j < h.net.nodes.size → an (ρ.node j) = an' j)) ∧
+      (∀ an v : Nat → α,
+        ConsOff h (fun x => x < h.net.nodes.size ∧ (lib.find (h.net.node x).kind).isSome = true) z neg prim an v →
+        (∀ c, c < h.net.nodes.size → (lib.find (h.net.node c).kind).isSome = true →
+          ∃ impl sh anm vm, lib.find (h.net.node c).kind = some impl ∧ implShape impl = some sh ∧
+            ImplMatches h c impl sh z neg prim anm vm v) →
+        ∃ an' v', ConsOff h' (fun _ => False) z neg prim an' v' ∧
+          (∀ l', l' < h'.net.lines.size → ρ.line l' < h.net.lines.size → v' l' = v (ρ.line l')) ∧
+          (∀ j, j < h'.net.nodes.size → ρ.node j < h.net.nodes.size → an' j = an (ρ.node j))) := by
+  obtain ⟨ρ, r⟩ := resolve_general_main lib h h' (WFm.of_wfNoTrail hw) z neg prim hok he
+  refine ⟨wfNoTrail_of_WFm r.wf, ρ, r.io, r.nodeInj, r.lineInj, ?_, ?_, ?_⟩
+  · intro d hd hn
+    obtain ⟨j, hj, ej⟩ := r.pos d hd (fun hc => by rw [hn] at hc; exact absurd hc.2 (by simp))
+    obtain ⟨n1, n2, n3⟩ := r.node j hj (ej ▸ hd)
+    rw [ej] at n1 n2 n3
+    exact ⟨j, hj, ej, n1, n2, n3⟩
+  · intro an' v' hc
+    obtain ⟨an, v, g1, g2, g3, g4, _⟩ := r.fw (fun _ => False) (fun _ hs => absurd hs id) (fun _ => z) an' v' hc
+    exact ⟨an, v, consOff_congr (fun x => by simp) g1, fun c hc1 hc2 => g2 c ⟨hc1, hc2⟩, g3, g4⟩
+  · intro an v hc hcells
+    obtain ⟨an', v', c1, e1, e2⟩ := r.bw (fun _ => False) (fun _ hs => absurd hs id) an v
+      (consOff_congr (fun x => by simp) hc) (fun c hc' => hcells c hc'.1 hc'.2)
+    exact ⟨an', v', c1, e1, e2⟩
+
+/-- hypotheses of `resolve_sem_general` are satisfiable where `resolve_sem` does not apply (`resolveOKB` false): a library with the
+    `TBUF`-style cell (ignored enable pin), the antenna cell (no output: the instance is removed) and `exImpl`; the enable fork
+    feeds the `TBUF`, the antenna and an inverter.  The result is consistent under the evaluator's labelling (direction (1) is
+    not vacuous) -/
+def exResHost : NNet :=
+  { net := { nodes := #[⟨"input", [], [some 0]⟩, ⟨"input", [], [some 1]⟩, ⟨"__fork__", [some 1], [some 2, some 3, some 4]⟩,
+                        ⟨"TBUF", [some 0, some 2], [some 5]⟩, ⟨"ANTENNA", [some 3], []⟩, ⟨"INV1", [some 4], [some 6]⟩,
+                        ⟨"AOCELL", [some 5, some 6], [some 7, some 8]⟩, ⟨"output", [some 7], []⟩, ⟨"output", [some 8], []⟩],
+             lines := #[⟨0, 0, 3, 0⟩, ⟨1, 0, 2, 0⟩, ⟨2, 0, 3, 1⟩, ⟨2, 1, 4, 0⟩, ⟨2, 2, 5, 0⟩, ⟨3, 0, 6, 0⟩, ⟨5, 0, 6, 1⟩, ⟨6, 0, 7, 0⟩,
+                        ⟨6, 1, 8, 0⟩],
+             io := [0, 1, 7, 8] },
+    names := #["a", "en", "en", "u", "ant", "n", "g", "x", "y"] }
+example : exResHost.wfNoTrail = true ∧
+    resolveGenOKB [("TBUF", exTbuf), ("ANTENNA", exAnt), ("AOCELL", exImpl)] exResHost.keys exResHost = true ∧
+    resolveOKB [("TBUF", exTbuf), ("ANTENNA", exAnt), ("AOCELL", exImpl)] exResHost.keys exResHost = false ∧
+    (resolveCells [("TBUF", exTbuf), ("ANTENNA", exAnt), ("AOCELL", exImpl)] exResHost).map (fun r => (r.wf, r.net.nodes.size,
+      r.net.lines.size,
+      consistentB r.net false (!·) prim2 (fun j => j == 0) (evalAll r.net false (!·) prim2 (fun j => j == 0)))) =
+      some (true, 12, 12, true) ∧
+    (resolveCells [("TBUF", exTbuf), ("ANTENNA", exAnt), ("AOCELL", exImpl)] exResHost).map (fun r => r.kindNames.take 8) =
+      some [("input", "a"), ("input", "en"), ("__fork__", "en"), ("BUF1", "u"), ("output", "y"), ("INV1", "n"),
+        ("INV1", "g"), ("output", "x")] := by decide +kernel
 
 end KV.C10
